@@ -143,6 +143,9 @@ func model() porcupine.Model {
 var faults = []string{"ok", "http500", "garbage", "badsig", "unknown-signer", "tempstore-create-fails", "insert-fails@1", "insert-fails@mid", "insert-fails@last"}
 var slowFaults = []string{"refused", "truncated-download"}
 
+// "swap-fails" (disk only, ~5 s of rename retries): the staged database vanishes just before it is moved
+// into place, so the swap step fails after the old database was moved aside and has to be rolled back
+
 type histSpec struct {
 	Backend string
 	Steps   []string
@@ -157,7 +160,7 @@ func (h histSpec) String() string {
 
 func main() {
 	run := report.New("C08", "fault_enumeration")
-	run.Rule("history = 2..4 reader clients doing lookups of version-identifying probe serials (common, never, unique-per-version) concurrently with one refresher that steps through a sequence of refresh outcomes {ok, http500, garbage, bad signature, unknown signer, temporary-store creation error, insert error at step 1/mid/last} (all sequences of length <=2, sampled length 3; refused / truncated download sampled; thorough: length <=3 exhaustive + lengths 4..6 sampled, every history under six schedules) on both backends, with seeded yields at the swap/lookup hook points; every call and return is stamped at the client boundary; oracle = linearizability of the history w.r.t. a single register holding the version in force (refresh ok => target, refresh err => unchanged, outcome not returned => either; lookup legal iff it matches the register), checked by porcupine; a lookup returning an error is reported separately; plus scenarios with two overlapping update passes of one checker (slow first download of v1, v2 published meanwhile): once v2 was observed no later lookup sees an older list, and v2 is in force when both have returned; non-trivial = history in which at least one lookup overlapped a refresh call; distinct = history descriptor")
+	run.Rule("history = 2..4 reader clients doing lookups of version-identifying probe serials (common, never, unique-per-version) concurrently with one refresher that steps through a sequence of refresh outcomes {ok, http500, garbage, bad signature, unknown signer, temporary-store creation error, insert error at step 1/mid/last} and, on disk, a store swap that fails after the old database was moved aside (all sequences of length <=2, sampled length 3; refused / truncated download sampled; thorough: length <=3 exhaustive + lengths 4..6 sampled, every history under six schedules) on both backends, with seeded yields at the swap/lookup hook points; every call and return is stamped at the client boundary; oracle = linearizability of the history w.r.t. a single register holding the version in force (refresh ok => target, refresh err => unchanged, outcome not returned => either; lookup legal iff it matches the register), checked by porcupine; a lookup returning an error is reported separately; plus scenarios with two overlapping update passes of one checker (slow first download of v1, v2 published meanwhile): once v2 was observed no later lookup sees an older list, and v2 is in force when both have returned; non-trivial = history in which at least one lookup overlapped a refresh call; distinct = history descriptor")
 	run.Assume("one location, so no partitioning; histories <= 450 operations, checker timeout 60 s => Unknown is inconclusive", "monotonic stamps from one clock in the harness process")
 	scratch, _ := report.Scratch("C08")
 	sut.QuietStderr(filepath.Join(scratch, "stderr.log"))
@@ -197,6 +200,14 @@ func main() {
 		for i := 0; i < nslow; i++ {
 			for _, sf := range slowFaults {
 				specs = append(specs, histSpec{Backend: b, Steps: []string{sf, "ok"}, Readers: 3, Seed: rng.Int63()})
+			}
+		}
+		if b == "disk" {
+			specs = append(specs, histSpec{Backend: b, Steps: []string{"swap-fails", "ok"}, Readers: 3, Seed: rng.Int63()},
+				histSpec{Backend: b, Steps: []string{"ok", "swap-fails"}, Readers: 2, Seed: rng.Int63()})
+			if run.Thorough() {
+				specs = append(specs, histSpec{Backend: b, Steps: []string{"swap-fails", "swap-fails", "ok"}, Readers: 3, Seed: rng.Int63()},
+					histSpec{Backend: b, Steps: []string{"ok", "swap-fails", "ok"}, Readers: 4, Seed: rng.Int63(), Unknown: true})
 			}
 		}
 	}
@@ -333,7 +344,25 @@ func runHistory(run *report.Run, w *world.World, hs histSpec, scratch string, id
 	var yrng = rand.New(rand.NewSource(hs.Seed ^ 0x5eed))
 	var ymu sync.Mutex
 	hookOrder := []string{}
+	var swapFault atomic.Bool
+	// the live store directories (everything in work_dir now, after the initial load); the staged
+	// database of a refresh is whatever directory appears next to them
+	liveDirs := map[string]bool{}
+	if des, err := os.ReadDir(wd); err == nil {
+		for _, de := range des {
+			liveDirs[de.Name()] = true
+		}
+	}
 	l2.SetExtraHook(func(name string) {
+		if name == "leveldb.update.new_closed" && swapFault.CompareAndSwap(true, false) {
+			des, _ := os.ReadDir(wd)
+			for _, de := range des {
+				if de.IsDir() && !liveDirs[de.Name()] {
+					_ = os.RemoveAll(filepath.Join(wd, de.Name()))
+				}
+			}
+			run.Count("swap_faults_fired", 1)
+		}
 		if name == "repo.swap.locked" {
 			swapMu.Lock()
 			swapTimes = append(swapTimes, now())
@@ -395,6 +424,7 @@ func runHistory(run *report.Run, w *world.World, hs histSpec, scratch string, id
 	}
 	// refresher
 	state := 0
+	lastRefreshErr := ""
 	for si, f := range hs.Steps {
 		target := si + 1
 		ff.failCreate.Store(false)
@@ -419,6 +449,9 @@ func runHistory(run *report.Run, w *world.World, hs histSpec, scratch string, id
 			w.CRL.Set(path, origin.Good(buildVersion(target, w.Int, w.Int)))
 			k := map[string]int64{"insert-fails@1": 1, "insert-fails@mid": nEntries / 2, "insert-fails@last": nEntries}[f]
 			ff.ser.arm(k)
+		case "swap-fails":
+			w.CRL.Set(path, origin.Good(buildVersion(target, w.Int, w.Int)))
+			swapFault.Store(true)
 		case "refused":
 			// cannot change the URL of the CDP; a closed port is simulated by closing the listener path: use truncate of zero bytes + connection close
 			w.CRL.Set(path, origin.Truncate(buildVersion(target, w.Int, w.Int), 0))
@@ -439,6 +472,7 @@ func runHistory(run *report.Run, w *world.World, hs histSpec, scratch string, id
 				res = "ok"
 			} else {
 				res = "err"
+				lastRefreshErr = err.Error()
 			}
 		}
 		t1 := now()
@@ -450,7 +484,7 @@ func runHistory(run *report.Run, w *world.World, hs histSpec, scratch string, id
 			run.Violation("refresh-reported-success-under-fault."+f+"."+hs.Backend, hs.String()+": refresh step "+fmt.Sprint(si)+" ("+f+") returned success", &report.Replay{Case: hs.String()})
 		}
 		if res == "err" && f == "ok" {
-			run.Violation("healthy-refresh-failed.after-"+prevStep(hs.Steps, si)+"."+hs.Backend, hs.String()+": a healthy refresh failed at step "+fmt.Sprint(si), &report.Replay{Case: hs.String()})
+			run.Violation("healthy-refresh-failed.after-"+prevStep(hs.Steps, si)+"."+hs.Backend, hs.String()+": a healthy refresh failed at step "+fmt.Sprint(si)+": "+lastRefreshErr, &report.Replay{Case: hs.String()})
 		}
 		if f == "ok" {
 			state = target
